@@ -45,7 +45,7 @@ def program_strategy(role):
 
 
 class ThreadRun:
-    def __init__(self, kind, d, pool_size=7, prehistory=0, warm=True):
+    def __init__(self, kind, d, pool_size=7, prehistory=0, warm=True, big_prehistory=False):
         import transaction
         import ZODB
         import ZODB.ConflictResolution as CR
@@ -71,6 +71,8 @@ class ThreadRun:
                 o = c.root()[nme]
                 o.v = -1 - i
                 o.derived_from = o._p_serial
+                if big_prehistory and i == prehistory - 1:
+                    o.pad = 'q' * 9500      # (the newest of these transactions is larger than a file buffer)
             tm.commit()
             self.pre_tids.append(c.root()[PLAIN[0]]._p_serial)
         clock.CLOCK.advance(1.0)
